@@ -19,14 +19,16 @@ RULE = ("Coq: Properties/C18.v (partial: fixed-point / idempotence lemmas of the
 META = {
     "technique": ("property-directed search on the real binary (format twice, --check) over generated parseable and "
                   "unparsable inputs + Coq lemmas about the edit model's fixed points"),
-    "level_text": ("PROVED (Coq, partial): apply_edits_nil (no edits leave the source unchanged), "
-                   "final_newline_phase_idem (phase 9 of format.rs as modelled is idempotent for ALL texts), "
-                   "gap_normal_fixed_point_partial (a token-gap phase that rewrites each gap to a desired whitespace "
-                   "produces no edit on its own output when the desired gap depends only on the token texts -- phases "
-                   "7/8 shape), apply_edits_in_gaps_tokens_fixed (after gap edits the token texts the next run sees are "
-                   "the same). NOT PROVED: idempotence of the whole pipeline -- the indentation/blank-line/signature "
-                   "phases are AST-driven and not modelled; `format(format x) = format x` and `--check` acceptance are "
-                   "established by search only (every generated input, parseable or not)."),
+    "level_text": ("PROVED (Coq, partial): apply_edits_nil (a run that computes no edit returns its input), "
+                   "final_newline_phase_idem_partial (phase 9 of format.rs as modelled -- strip all but one trailing "
+                   "newline, add one to non-empty text -- is idempotent for ALL texts), gap_normal_fixed_point_partial and "
+                   "gap_edit_result_is_fixed_partial (a token-gap phase of the shape of phases 7/8, which rewrites a gap "
+                   "to a whitespace determined by the two token texts, computes no edit on a gap that already is the "
+                   "desired one, in particular on a gap it wrote), gap_edits_keep_tokens_for_next_run_partial (after gap "
+                   "edits meeting C17's conditions the next run sees the same token and comment texts). NOT PROVED: "
+                   "idempotence of the whole pipeline -- the indentation / blank-line / signature phases are AST-driven "
+                   "and not modelled; `format(format x) = format x` and `--check` acceptance are established by search "
+                   "only (every generated input, parseable or not)."),
     "level_note": ("Trusted: the cfg-gated hook op `format` calls the same `format::format` as the CLI (cross-checked on "
                    "a sample through the CLI, which additionally strips a `// args: ` reftest footer and re-terminates "
                    "lines with LF before formatting); Python generator."),
